@@ -18,7 +18,8 @@ META = {
             ">= 1 input bit; distinct = distinct (program, values) truth tables.",
     "bound": {"quick": "~60 templates, parameter domains <= 4 values each (all products), histories over 3 values depth 3",
               "thorough": "wider value domains (Qint[4]: 0..15), both optimizer profiles"},
-    "assumptions": ["pyref is the meaning of the unbound function called with the parameters set; a bound value is a literal constant, typed like any literal"],
+    "assumptions": ["a bind that raises is a rejection only if it also raises in a fresh interpreter (python -c); otherwise it is reported",
+                    "pyref is the meaning of the unbound function called with the parameters set; a bound value is a literal constant, typed like any literal"],
     "explanation": "states = binds executed on the real UnboundQlassf; transitions = remaining-input rows compared + history steps.",
 }
 
@@ -99,6 +100,9 @@ def templates(tier):
     T.append(("def tfun(a: Qfixed[3, 3], p: Parameter[Qfixed[3, 3]]) -> Qfixed[3, 3]:\n    return a + p\n", {"p": F33}))
     T.append(("def tfun(a: Qfixed[3, 3], p: Parameter[Qfixed[3, 3]]) -> Qfixed[3, 3]:\n    return p - a\n", {"p": F33}))
     T.append(("def tfun(a: Qfixed[2, 3], p: Parameter[Qfixed[2, 3]]) -> Qfixed[2, 3]:\n    return a + p\n", {"p": [0.125, 0.5, 1.5, 2.0, 3.25]}))
+    # an int and a float parameter of numerically equal values (1 and 1.0 are equal and hash alike in Python)
+    T.append(("def tfun(a: Qfixed[1, 2], b: Qint[2], k: Parameter[Qint[2]], x: Parameter[Qfixed[1, 2]]) -> bool:\n    return (b == k) and (a >= x)\n",
+              {"k": [0, 1], "x": [0.0, 1.0, 0.5]}))
     # several parameters, every position
     T.append(("def tfun(p: Parameter[Qint[2]], a: Qint[2], q: Parameter[bool]) -> Qint[2]:\n    return (a + p) if q else (a - p)\n", {"p": QI2, "q": BO}))
     T.append(("def tfun(a: Qint[2], p: Parameter[Qint[2]], q: Parameter[Qint[2]]) -> Qint[4]:\n    return a * p + q\n", {"p": QI2, "q": QI2}))
@@ -166,6 +170,27 @@ def ref_param(v):
     return pyref._c(v)
 
 
+def fresh_bind_outcome(src, callee, kw):
+    """'ok' / 'raises' / 'unknown': the same translate + bind in a fresh interpreter (python -c, same hash seed)."""
+    import os
+    import subprocess
+    import sys
+    code = ("import sys\nfrom qlasskit import qlassf\nsrc=%r\ncallee=%r\nkw=%r\n"
+            "defs=[qlassf(callee, to_compile=False)] if callee else []\n"
+            "u=qlassf(src, to_compile=False, defs=defs)\n"
+            "try:\n    u.bind(**kw)\n    print('OUTCOME ok')\nexcept Exception as e:\n    print('OUTCOME raises')\n") % (src, callee, kw)
+    env = dict(os.environ)
+    if os.environ.get("QLASSKIT_SRC"):
+        env["PYTHONPATH"] = os.environ["QLASSKIT_SRC"] + os.pathsep + env.get("PYTHONPATH", "")
+    try:
+        out = subprocess.run([sys.executable, "-c", code], capture_output=True, text=True, timeout=120, env=env).stdout
+    except Exception:
+        return "unknown"
+    if "OUTCOME ok" in out:
+        return "ok"
+    return "raises" if "OUTCOME raises" in out else "unknown"
+
+
 def fingerprint(qf):
     return (qf.name, [(a.name, str(a.ttype), list(a.bitvec)) for a in qf.args], list(qf.returns.bitvec),
             [(str(s), str(e)) for s, e in qf.expressions])
@@ -222,8 +247,15 @@ def run_case(case):
         try:
             qf = u.bind(**kw)
         except Exception as e:
+            # a rejection must not depend on what this process translated before: the same bind is repeated in a fresh interpreter
+            fresh = fresh_bind_outcome(src, callee, kw)
+            if fresh == "ok":
+                return {"status": "violation", "rows": 0, "nontrivial": True, "outcome": "bind-raises-only-here",
+                        "detail": {"bad": [{"why": "bind raised %s: %s here, but succeeds in a fresh interpreter" % (H.exc_name(e), str(e)[:80])}],
+                                   "bind": {n: repr(v) for n, v in kw.items()}},
+                        "digest": H.h12(("bind-raises-only-here", H.exc_name(e)))}
             return {"status": "rejected", "rows": 0, "nontrivial": False, "outcome": "bindrej:" + H.exc_name(e),
-                    "counters": {"bind_rejected": 1}}
+                    "counters": {"bind_rejected": 1, "bind_rejections_confirmed_in_fresh_interpreter": 1 if fresh == "raises" else 0}}
         bad = []
         if ast.dump(u.fun_ast) != before:
             bad.append({"why": "bind altered the unbound object's AST"})
